@@ -143,7 +143,7 @@ func enc(r res) string {
 func main() {
 	seed, count, wo, wi, _, done := hv.Args()
 	defer done()
-	filePool := []string{"a.go", "b.go", "dir/c.py", "d.txt", "e.md", "f.rs"}
+	filePool := []string{"a.go", "b.go", "dir/c.py", "d.txt", "e.md", "f.rs", "docs|notes.md", "notes.md", "x|a.txt"} // file names are literal strings, also when they contain the separator of identities
 	pools := [][]string{
 		{"ann|ann@x", "bob|bob@x", "carl|carl@y", "dee|dee@x", "ann2|ann@x", "bob|bob@work"},
 		{"ann|ann@x", "bob|bob@x", "carl|carl@y", "dee|dee@x", "eve|ann@x2", "fay|fay@z|fay@w"},
@@ -167,6 +167,25 @@ func main() {
 			m := ca.MergeResults(c1, c2, &core.CommonAnalysisResult{}, &core.CommonAnalysisResult{}).(leaves.CouplesResult)
 			fmt.Fprintf(wi, "%s # %s # %s # %s # %s # %s\n", strings.Join(m.Files, ","), ints(m.FilesLines), cells(m.FilesMatrix),
 				cells(m.PeopleMatrix), rowsOut(m.PeopleFiles), strings.Join(leaves.VerifCouplesDict(m), ";"))
+			// Go-side statement (no model): the merged file list is the union of the two lists of *literal* names, each once
+			want := map[string]bool{}
+			for _, f := range append(append([]string{}, r1.Files...), r2.Files...) {
+				want[f] = true
+			}
+			got := map[string]int{}
+			for _, f := range m.Files {
+				got[f]++
+			}
+			bad := len(got) != len(want)
+			for f, n := range got {
+				if n != 1 || !want[f] {
+					bad = true
+				}
+			}
+			if bad {
+				hv.Fail("couples-merge-files", fmt.Sprintf(`{"files1":%q,"files2":%q}`, r1.Files, r2.Files),
+					fmt.Sprintf("merged file list %q is not the union of the input lists (every name once)", m.Files))
+			}
 			sizes[fmt.Sprintf("merged_files_%d", len(m.Files))]++
 			sizes[fmt.Sprintf("merged_people_%d", len(leaves.VerifCouplesDict(m)))]++
 		}()
